@@ -282,4 +282,84 @@ def Consistent (fs : Files) (refs : Refs) : Prop := ∀ r ∈ refs, fs (.part r.
 
 def consistentB (fs : Files) (refs : Refs) : Bool := refs.all fun r => fs (.part r.1) == some r.2
 
+-- ---------------------------------------------------------------- which controller owns a registered closure
+
+/-- The handle a part store is given: the root controller of the transaction, or a child handle
+(`TxController.Child()`: the operation runs inside an enclosing transaction, as under
+`TransactionalStorage.WithTransaction`). Only the root is ever finalised; `Commit`/`Rollback` of a
+child are no-ops. -/
+inductive Handle where
+  | root | child
+  deriving DecidableEq, Repr
+
+inductive HookList where
+  | pre | after | rollback
+  deriving DecidableEq, Repr
+
+/-- Where a registration method appends the closure: to the root's list or to the receiver's own,
+and to which of the three lists. -/
+structure Target where
+  toRoot : Bool
+  list : HookList
+  deriving DecidableEq, Repr
+
+structure Routing where
+  onPreCommit : Target
+  onAfterCommit : Target
+  onRollback : Target
+  deriving DecidableEq, Repr
+
+/-- The code (T1 table `hookRouting`): each method appends to the ROOT's list of its own kind. -/
+def Routing.code : Routing := ⟨⟨true, .pre⟩, ⟨true, .after⟩, ⟨true, .rollback⟩⟩
+
+inductive Closure where
+  | pre (r : Reg) (slot : Nat)
+  | after (r : Reg) (slot : Nat)
+  | rollback (r : Reg) (slot : Nat)
+  deriving DecidableEq, Repr
+
+/-- The three hook lists of the ROOT controller — what `Commit` and `Rollback` iterate. -/
+structure Ctl where
+  pre : List Closure := []
+  after : List Closure := []
+  rollback : List Closure := []
+  deriving DecidableEq, Repr
+
+/-- A closure appended to the receiver's own list reaches the root only when the receiver is the root. -/
+def Ctl.add (c : Ctl) (h : Handle) (t : Target) (cl : Closure) : Ctl :=
+  if t.toRoot || h == .root then
+    match t.list with
+    | .pre => { c with pre := c.pre ++ [cl] }
+    | .after => { c with after := c.after ++ [cl] }
+    | .rollback => { c with rollback := c.rollback ++ [cl] }
+  else c
+
+/-- One part-store call registers OnPreCommit, OnAfterCommit, OnRollback, in that order. -/
+def Ctl.registerCall (rt : Routing) (c : Ctl) (h : Handle) (r : Reg) (slot : Nat) : Ctl :=
+  ((c.add h rt.onPreCommit (.pre r slot)).add h rt.onAfterCommit (.after r slot)).add h rt.onRollback (.rollback r slot)
+
+def Ctl.registerAll (rt : Routing) : Ctl → List (Handle × Reg) → Nat → Ctl
+  | c, [], _ => c
+  | c, (h, r) :: rest, i => Ctl.registerAll rt (c.registerCall rt h r i) rest (i + 1)
+
+def closuresOf (mk : Reg → Nat → Closure) : List Reg → Nat → List Closure
+  | [], _ => []
+  | r :: rs, i => mk r i :: closuresOf mk rs (i + 1)
+
+/-- Run one closure, whatever list it sits in (flags are per slot). -/
+def runClosure (s : Files × (Nat → Flags)) : Closure → Files × (Nat → Flags)
+  | .pre r i =>
+    let (fs1, fl, _) := preHook r i s.1
+    (fs1, fun j => if j = i then fl else s.2 j)
+  | .after r i => (afterHook r i (s.2 i) s.1, s.2)
+  | .rollback r i => (rollbackHook r i (s.2 i) s.1, s.2)
+
+/-- `tx.Commit()` fails after the whole pre-commit list ran: then the rollback list runs
+(last-registered-first when `rev`). Generic over the lists, so that mis-routed closures can be
+expressed. Returns the directory at the moment of the COMMIT and the directory afterwards. -/
+def Ctl.commitFails (rev : Bool) (c : Ctl) (fsT : Files) : Files × Files :=
+  let atCommit := c.pre.foldl runClosure (fsT, fun _ => {})
+  let rb := if rev then c.rollback.reverse else c.rollback
+  (atCommit.1, (rb.foldl runClosure atCommit).1)
+
 end Pithos.TxFs
